@@ -12,4 +12,4 @@ for P in $(ls "$SRC"/patch*.diff 2>/dev/null | sort); do
   [ -d "seeded/$ID-$NEXT" ] && NEW="$NEW $ID-$NEXT"
 done
 git -C /repo worktree remove --force "/tmp/seed/$ID$R" 2>/dev/null; rm -rf "/tmp/seed/$ID$R"
-[ -n "$NEW" ] && MATRIX_OUT=seeded/MATRIX-$R.tsv tools/seedmatrix.sh $NEW
+echo "NEW:$NEW"; [ -z "$SKIP_MATRIX" ] && [ -n "$NEW" ] && MATRIX_OUT=seeded/MATRIX-$R.tsv tools/seedmatrix.sh $NEW
